@@ -30,7 +30,9 @@ OwnKinds == {"contract_called", "gas_paid", "delivery_executed", "transfer_recei
              "trusted_chain_set", "trusted_chain_removed", "token_id_claimed", "ownership_transferred", "app_called"}
 Own(ev) == SelectSeq(ev, LAMBDA e : e.k \in OwnKinds)
 FieldNames == {"trusted", "reg", "regTok", "tokMeta", "bal", "minters", "gas", "fkMeta", "owner", "tokOwner", "tokSelfId", "idcheck", "wiring"}
-Diffs(sp, post) ==
+(* `idcheck` and `wiring` are constants the contract reports about itself: what counts for a step is that it does
+   not change them (a value that is already wrong after deployment is reported once, at the reset line) *)
+Diffs(sp, pre, post) ==
     LET o == Obs(sp) IN
     {f \in FieldNames :
         CASE f = "trusted" -> o.trusted # post.trusted [] f = "reg" -> o.reg # post.reg
@@ -38,14 +40,14 @@ Diffs(sp, post) ==
           [] f = "bal" -> o.bal # post.bal [] f = "minters" -> o.minters # post.minters
           [] f = "gas" -> o.gas # post.gas [] f = "fkMeta" -> o.fkMeta # post.fkMeta
           [] f = "owner" -> o.owner # post.owner [] f = "tokOwner" -> o.tokOwner # post.tokOwner
-          [] f = "tokSelfId" -> o.tokSelfId # post.tokSelfId [] f = "idcheck" -> o.idcheck # post.idcheck [] f = "wiring" -> o.wiring # post.wiring}
+          [] f = "tokSelfId" -> o.tokSelfId # post.tokSelfId [] f = "idcheck" -> pre.idcheck # post.idcheck [] f = "wiring" -> pre.wiring # post.wiring}
 Verdict(line, r) ==
     IF line.obs.ok # r.ok THEN "outcome"
     ELSE IF r.ok THEN
         IF r.ret # "unit" /\ r.ret # line.obs.ret THEN "ret"
         ELSE IF ~SameBag(r.ev, Own(line.obs.ev)) THEN "events"
-        ELSE IF Diffs(r.post, line.post) # {} THEN "state" ELSE ""
-    ELSE IF Diffs(r.post, line.post) # {} THEN "frame"
+        ELSE IF Diffs(r.post, line.pre, line.post) # {} THEN "state" ELSE ""
+    ELSE IF Diffs(r.post, line.pre, line.post) # {} THEN "frame"
     ELSE IF Own(line.obs.ev) # <<>> THEN "frame_events" ELSE ""
 InvFailures(s) ==
     (IF NonNegative(s) THEN {} ELSE {"NonNegative"})
@@ -56,12 +58,20 @@ Report(line, r, v, inv) ==
                              spec_ok |-> r.ok, code_ok |-> line.obs.ok,
                              spec |-> IF v = "events" THEN r.ev ELSE IF v = "ret" THEN <<r.ret>> ELSE <<>>,
                              code |-> IF v \in {"events", "frame_events"} THEN line.obs.ev ELSE IF v = "ret" THEN <<line.obs.ret>> ELSE <<>>,
-                             diffs |-> {[field |-> f] : f \in Diffs(r.post, line.post)}, inv |-> inv, dev |-> r.dev])>>)
+                             diffs |-> {[field |-> f] : f \in Diffs(r.post, line.pre, line.post)}, inv |-> inv, dev |-> r.dev])>>)
 Init == l = 2 /\ bad = 0 /\ prev = [none |-> TRUE]
 Next ==
     /\ l <= NLines
     /\ LET line == Rec[l] IN
-       IF line.reset THEN bad' = bad
+       IF line.reset
+       THEN LET wrong == {f \in {"idcheck", "wiring"} :
+                            IF f = "idcheck" THEN line.pre.idcheck # "ok" ELSE line.pre.wiring # "ok"} IN
+            /\ IF wrong = {} THEN TRUE
+               ELSE PrintT(<<"TRES", ToJson([l |-> l, kind |-> "state", act |-> [name |-> "Deploy"],
+                                             exp |-> [ok |-> TRUE, why |-> "ok", fails |-> {}, free |-> FALSE, ret |-> "unit", ev |-> <<>>],
+                                             spec_ok |-> TRUE, code_ok |-> TRUE, spec |-> <<>>, code |-> <<>>,
+                                             diffs |-> {[field |-> f] : f \in wrong}, inv |-> {}, dev |-> "none"])>>)
+            /\ bad' = IF wrong = {} THEN bad ELSE bad + 1
        ELSE LET r == Apply(StateOf(line.pre), ActOf(line.act))
                 v == Verdict(line, r)
                 inv == InvFailures(StateOf(line.post)) \ InvFailures(StateOf(line.pre))   \* newly broken only
